@@ -7,6 +7,11 @@
 (*  cmp    per target t: all pairs (x, y) of 2-byte addresses over an alphabet  *)
 (*  rand   32-byte addresses drawn by the driver from the seed: first           *)
 (*         difference at bit k (prox) / x and y sharing s leading bytes (cmp)   *)
+(*  cmpk   ordering by the length k of the common prefix of the two candidates: *)
+(*         x, y 32-byte addresses drawn from the seed that share exactly k      *)
+(*         leading bits, k = 0..48 and 100, 200, 255; target inside the shared  *)
+(*         prefix ("in": agrees with x on the first k bits), outside ("out":    *)
+(*         random) and equal to one candidate ("x")                             *)
 EXTENDS Overlay, TLC, Json, IOUtils
 VARIABLE hist
 
@@ -43,7 +48,13 @@ RandScn(r) == [par |-> [kind |-> "rand", rep |-> r],
                ops |-> [i \in 1..Len(RandKs) |-> [op |-> "proxrand", k |-> RandKs[i]]]
                        \o [i \in 1..Len(RandShared) |-> [op |-> "cmprand", shared |-> RandShared[i]]]]
 
+PrefixKs == [i \in 1..52 |-> IF i <= 49 THEN i - 1 ELSE IF i = 50 THEN 100 ELSE IF i = 51 THEN 200 ELSE 255]
+Targets == <<"in", "out", "x">>
+CmpKScn(r) == [par |-> [kind |-> "cmpk", rep |-> r],
+               ops |-> [i \in 1..(52 * 3) |-> [op |-> "cmpk", k |-> PrefixKs[((i - 1) \div 3) + 1], tgt |-> Targets[((i - 1) % 3) + 1]]]]
+
 Scenarios == {ProxScn(b, inv) : b \in Bases, inv \in BOOLEAN}
+             \cup {CmpKScn(r) : r \in 1..Reps}
              \cup {CmpScn(t) : t \in Addr2}
              \cup {RandScn(r) : r \in 1..Reps}
 
